@@ -176,11 +176,6 @@ REVIEWED = {
     'libtw2_snapshot::snap::Builder::add_item | panic-call | assert! | 0':
         "Caller-argument misuse assert: TypeId::Ordinal must be a non-reserved ordinal (0 = TYPE_ID_EX and >= 0x4000 are reserved for the UUID registry); "
         "treated as API precondition per the crate brief (note: the source has no doc comment saying so).  Does not depend on snapshot contents.",
-    'libtw2_snapshot::snap::Builder::add_item | panic-call | panic_2021! | 1':
-        "assert!(raw_type_id < 0x8000) on next_type_id.  Builder-only flows: next_type_id starts at 0x4000 and grows by one per registry item, <= 1024 items per snapshot, "
-        "and recycle recomputes it from the <= 1024 re-added ids, so it stays < 0x4000 + 2048.  Network flows: recycle can only raise next_type_id past 0x40ff if the snapshot "
-        "has >= 2 registry (type 0) items, and then recycle itself panics earlier (lines 581/588, both SUSPECT).  So today this is masked by those defects: once "
-        "build_from_raw/recycle are repaired, a snapshot whose registry ids climb from 0x4000 past 0x8000 in steps < 256 (>= 64 items) makes it reachable -- re-review then.",
     'libtw2_snapshot::snap::delta_chunks | assert-cast | assert_i32 | 0':
         "[size assumption] ceil(data.len() / 900) > i32::MAX needs a byte slice longer than 900 * 2^31 (1.9 TB); impossible on 32-bit (len <= 2^31).",
     '<libtw2_snapshot::snap::DeltaChunks as std::iter::Iterator>::next | assert-cast | assert_usize | 0':
@@ -253,6 +248,12 @@ SUSPECT = {
         "Confirmed.  assert!(OFFSET_EXTENDED_TYPE_ID <= next_type_id) is about internal state, not a caller argument.  Snap::recycle sets next_type_id = id + 1 for the first "
         "registry item with id < 0x4000 + 256 without requiring id >= 0x4000.  Snapshot accepted by Snap::read_from_ints with the single item (type 0, id 5, [1,2,3,4]); "
         "snap.recycle() gives next_type_id = 6; builder.add_item(TypeId::Uuid(any new uuid), 1, &[1]) panics 'invalid type ID' (also via Storage::new_builder on a client-side Storage).",
+    'libtw2_snapshot::snap::Builder::add_item | panic-call | panic_2021! | 1':
+        "Confirmed.  assert!(next_type_id < 0x8000) is about internal state.  Builder-only flows keep next_type_id < 0x4000 + 2048, and for an ACCEPTED network snapshot "
+        "recycle panics earlier (lines 581/588) as soon as it has >= 2 registry items, which today masks this site.  But Storage keeps a Snap whose read_with_delta FAILED in "
+        "`free` and Storage::new_builder recycles it: delta with 66 type-0 items, ids 0x4000 + 255*k, 4 data ints each, the first two with equal uuid data; "
+        "Storage::add_delta(.., None, -1, 1, &delta) returns Err(DuplicateUuidType) (raw keeps 66 items, extended_types one entry); Storage::new_builder() -> recycle climbs "
+        "next_type_id to 0x80c0; builder.add_item(TypeId::Uuid(new), 1, &[1]) panics 'invalid type ID'.  Once build_from_raw (D6) is repaired the same happens for accepted snapshots.",
     'libtw2_snapshot::snap::delta_chunks | overflow | Sub | 0':
         "Confirmed.  Public function, unchecked `tick - delta_tick` on caller-supplied i32s: delta_chunks(i32::MAX, -1, b\"\", 0) (or (0, i32::MIN, ..)) panics with "
         "'attempt to subtract with overflow' in the debug profile; no doc comment states a range precondition (the receiver side uses wrapping_sub).",
